@@ -46,6 +46,12 @@ pub struct TickProbe;
 #[derive(Component, Default)]
 pub struct Holder(pub Vec<AutoDespawnSignal>);
 
+/// Carried by every slot entity: its remove hook reports the exact moment the entity goes, whoever despawns it.
+#[derive(Component)]
+#[component(on_remove = tracked_gone)]
+pub struct Tracked;
+fn tracked_gone(_world: bevy::ecs::world::DeferredWorld, entity: Entity, _id: bevy::ecs::component::ComponentId) { log(Ev::Gone(entity.to_bits())); }
+
 struct Canary(u8);
 impl Drop for Canary { fn drop(&mut self) { log(Ev::Canary(self.0)); } }
 
@@ -794,7 +800,7 @@ pub fn exec_wop(world: &mut World, op: &WOp, u: u32)
         {
             let cur = slot(world, *s);
             if world.get_entity(cur).is_ok() { return; }
-            let e = world.spawn_empty().id();
+            let e = world.spawn(Tracked).id();
             { let mut h = world.resource_mut::<H>(); h.slots[*s as usize] = e; h.known.push(e); }
             log(Ev::Spawned { slot: *s, e: e.to_bits() });
             // initial components are inserted without reactions (plain insert of the wrapper is not public; use react)
@@ -1268,7 +1274,7 @@ fn run_inner(prog: &Arc<Program>)
     for (s, (a, b)) in prog.slots.iter().enumerate()
     {
         let world = app.world_mut();
-        let e = world.spawn_empty().id();
+        let e = world.spawn(Tracked).id();
         slot_ents.push(e);
         log(Ev::Spawned { slot: s as u8, e: e.to_bits() });
         let (a, b) = (*a, *b);
